@@ -176,10 +176,13 @@ def check(ctx):
     ctx.build("c12")
     q = ctx.quick
     # ---- the specifications, exhaustively (quick configurations with action coverage = vacuity check)
-    ctx.tlc_mc("MC_Reconnect", "MC_Reconnect.cfg", timeout=900)
-    ctx.tlc_mc("MC_Reconnect", "MC_Reconnect_timed.cfg", timeout=900)
-    ctx.tlc_mc("Merge", "MC_Merge.cfg", timeout=600)
-    if not q:
+    # (selftest/c12_mutants.py sets ctx.impl_only: source mutants do not change the specification)
+    impl_only = getattr(ctx, "impl_only", False)
+    if not impl_only:
+        ctx.tlc_mc("MC_Reconnect", "MC_Reconnect.cfg", timeout=900)
+        ctx.tlc_mc("MC_Reconnect", "MC_Reconnect_timed.cfg", timeout=900)
+        ctx.tlc_mc("Merge", "MC_Merge.cfg", timeout=600)
+    if not q and not impl_only:
         ctx.tlc_mc("MC_Reconnect", "MC_Reconnect_thorough.cfg", timeout=2400, coverage=False)
         ctx.tlc_mc("MC_Reconnect", "MC_Reconnect_timed_thorough.cfg", timeout=2400, coverage=False)
         ctx.tlc_mc("Merge", "MC_Merge_thorough.cfg", timeout=900)
